@@ -1,9 +1,17 @@
 #!/bin/bash
-# Re-runs every stored / candidate seed against the quick check of its property (and extra properties given
-# as "P:extra" pairs). usage: tools/seed_regress.sh > log
-for pfx in seed seed2; do for p in C03 C04 C05 C07 C09 C10 C15 C16 C18; do for s in A B; do
-  d=/tmp/$pfx-$p/$s; [ -f $d/patch.diff ] || continue
-  out=/var/tmp/seedlogs/final-$pfx-$p-$s.try
-  /verif/tools/try_seed.sh $d/patch.diff $p > $out 2>&1
-  echo "$pfx $p-$s: $(grep -c '^VIOLATION' $out) violations $(grep 'exit=' $out | tr '\n' ' ') $(grep -c 'does not apply' $out) noapply | $(grep 'class:' $out | head -2 | tr '\n' ' ' | cut -c1-160)"
-done; done; done
+# Re-runs every stored seed (/verif/seeded/<id>/patch.diff) against the quick check of the property it breaks.
+# Applies each patch to /repo and ALWAYS restores /repo (never run other checks concurrently).
+# usage: tools/seed_regress.sh [id ...]   (default: all)   -> one summary line per seed; exit 1 if any seed is missed
+cd /verif || exit 2
+ids="$@"; [ -z "$ids" ] && ids=$(ls seeded)
+missed=0
+for id in $ids; do
+  p=$(python3 -c "import json;print(json.load(open('/verif/seeded/$id/meta.json'))['breaks_property'])")
+  out=/var/tmp/seedlogs/regress-$id.try; mkdir -p /var/tmp/seedlogs
+  /verif/tools/try_seed.sh /verif/seeded/$id/patch.diff $p > $out 2>&1
+  v=$(grep -c '^VIOLATION' $out); e=$(grep 'exit=' $out | tr '\n' ' ')
+  echo "$id ($p): $v violation line(s) $e $(grep -c 'does not apply' $out | sed 's/^0$//;s/^1$/PATCH-DOES-NOT-APPLY/')"
+  grep -q 'exit=1' $out || missed=$((missed+1))
+done
+echo "missed: $missed"
+[ $missed -eq 0 ]
